@@ -44,6 +44,36 @@ def run(ctx):
             hist[k] = hist.get(k, 0) + v
         if sample and len(samples) < 2:
             samples.append([l[:100] for l in sample])
+    # files another writer produced (red entries, entries in any slots, sectors in any order), mutated through
+    # the API: the bytes must reopen to the live state as well ("starting from any previously produced file")
+    from . import rawlib as R
+    import re, shutil
+    laydir = R.scratch(ctx, "lay02")
+    try:
+        lops, limp = ctx.path("lay02.ops"), ctx.path("lay02.impl")
+        rc, out = C.harness(["layout", "--outdir", laydir, "--ops", lops, "--impl", limp, "--seed", ctx.seed + 77, "--count", 60 if quick else 1500], timeout=3000)
+        if rc != 0:
+            ctx.undischarged.append("harness layout crashed: " + out[-300:])
+        else:
+            st, _, oracle = C.parse_stats(out)
+            total_ops += st.get("ops", 0)
+            hist["foreign-layouts-mutated-and-reopened"] = st.get("images", st.get("ops", 0))
+            seen = set()
+            for msg in oracle:
+                if "after mutating" not in msg and "reopen" not in msg:
+                    continue  # reading the foreign file itself is C04's subject
+                sg = "foreign:bytes-do-not-reopen-the-same"
+                if sg in seen:
+                    continue
+                seen.add(sg)
+                m = re.search(r"(/\S+?\.cfb)", msg)
+                keep = None
+                if m and os.path.exists(m.group(1)):
+                    keep = os.path.join(ctx.replaydir, "foreign_layout.cfb")
+                    shutil.copy(m.group(1), keep)
+                C.add_violation(ctx, sg, msg[:400], "# C02 on a file another writer produced: %s\n# the synthesised image is kept as %s; the API calls are in the message\n" % (msg[:1500], keep))
+    finally:
+        R.cleanup(ctx)
     # the large file (V3, > 236 FAT sectors, two DIFAT sectors): the bytes must reopen to the live state
     hdir = ctx.path("huge")
     os.makedirs(hdir, exist_ok=True)
